@@ -67,18 +67,6 @@ pub fn rdata_modelled(d: &RData) -> bool {
     )
 }
 
-/// does the message hold an SVCB / HTTPS record with a `port` parameter? (the class predicate of
-/// C02-F3 looks at the original octets through the length comparison in the caller)
-fn svcb_port_has_trailing(m: &Message) -> bool {
-    use hickory_proto::rr::rdata::svcb::{SvcParamKey, SVCB};
-    let has = |s: &SVCB| s.svc_params.iter().any(|(k, _)| *k == SvcParamKey::Port);
-    m.answers.iter().chain(m.authorities.iter()).chain(m.additionals.iter()).any(|r| match &r.data {
-        RData::SVCB(s) => has(s),
-        RData::HTTPS(h) => has(&h.0),
-        _ => false,
-    })
-}
-
 pub fn msg_modelled(m: &Message) -> bool {
     m.answers.iter().chain(m.authorities.iter()).chain(m.additionals.iter()).all(|r| rdata_modelled(&r.data))
 }
@@ -274,6 +262,18 @@ thread_local! {
 pub fn run_line(t: &[&str]) -> Option<MsgVerdict> {
     let mut fails = vec![];
     match t {
+        ["undec", hx] => {
+            // regression lines: these octets must NOT decode (implementation and model)
+            let bytes = unhex(hx)?;
+            let out = match Message::from_vec(&bytes) {
+                Ok(m) => {
+                    fails.push(format!("decodes although it must be refused: {}", &show_message(&m)[..show_message(&m).len().min(200)]));
+                    "decodes".to_string()
+                }
+                Err(_) => "undecodable".to_string(),
+            };
+            Some(MsgVerdict { out, fails, class: "", n_limits: 0, n_truncated: 0, n_err: 1, n_full: 0, kind: "undec", len: bytes.len() })
+        }
         ["tsnew", types] => {
             // a RecordTypeSet without original encoding, encoded afresh (windows / bitmaps)
             use hickory_proto::dnssec::rdata::NSEC;
@@ -435,20 +435,7 @@ pub fn run_line(t: &[&str]) -> Option<MsgVerdict> {
                             // upstream fuzz oracle 2 (fuzz_targets/preserve_rdata.rs)
                             match catch(|| crate::props::fuzzoracle::preserve_rdata(&bytes, &b)) {
                                 Ok(Ok(())) => {}
-                                Ok(Err(e)) => {
-                                    // KNOWN FINDING C02-F3: `SvcParamValue::read` takes the first two
-                                    // octets of a `port` value and ignores the rest of the value, so
-                                    // the value round-trips and the RDATA octets do not
-                                    if fails.is_empty()
-                                        && d1 == d2
-                                        && b.len() < bytes.len()
-                                        && (e.contains("(type 64)") || e.contains("(type 65)"))
-                                        && svcb_port_has_trailing(&m)
-                                    {
-                                        class = "C02.SvcbPortTrailingOctets";
-                                    }
-                                    fails.push(format!("upstream oracle preserve_rdata.rs: {e}"))
-                                }
+                                Ok(Err(e)) => fails.push(format!("upstream oracle preserve_rdata.rs: {e}")),
                                 Err(p) => fails.push(format!("upstream oracle preserve_rdata.rs panicked: {p}")),
                             }
                             (format!("ok {} {} {}", b.len(), d.index(), d2), 0)
